@@ -113,6 +113,10 @@ type GC struct {
 	Effects []*Term
 	Exit    *Term
 	Pos     token.Pos // position of the first effect / exit, for reports
+	// LiveIn (BuildOpts.LiveIn only, on paths that enter a loop header): what the values defined before the loop and used
+	// inside it — which the loop's own paths can only name at the unspecific epoch "pre" — are on this entering path
+	// (spelling inside the loop → term with this path's version stamps)
+	LiveIn map[string]*Term
 }
 
 func (g *GC) String() string {
@@ -150,9 +154,10 @@ const maxInlineDepth = 6
 
 // BuildOpts selects which callees are expanded inline while the paths are enumerated.
 type BuildOpts struct {
-	Tag    string                        // cache tag
+	Tag    string                          // cache tag
 	Inline func(callee *ssa.Function) bool // additionally expand these (known) library callees
 	Depth  int                             // frame-stack limit (default 5)
+	LiveIn bool                            // record GC.LiveIn
 	Opaque func(callee *ssa.Function) bool // never expand these
 }
 
@@ -207,9 +212,10 @@ type pstate struct {
 	pos     token.Pos
 	onPath  map[string]bool
 	// expression inlining
-	depth int
-	subst map[ssa.Value]*Term // parameter substitution while inlining an expression-like callee
-	inl   bool                // evaluating an inlined expression: every definition is read at the caller's current epoch
+	depth  int
+	subst  map[ssa.Value]*Term // parameter substitution while inlining an expression-like callee
+	inl    bool                // evaluating an inlined expression: every definition is read at the caller's current epoch
+	liveIn map[string]*Term    // set just before a loop-entering path is emitted (BuildOpts.LiveIn)
 }
 
 func (s *pstate) clone() *pstate {
@@ -243,7 +249,9 @@ func isLoopHeader(blk *ssa.BasicBlock) bool {
 }
 
 // BuildGCNF computes the normal form of fn (no additional inlining beyond helpers unknown to the pinned symbol table).
-func BuildGCNF(p *Prog, e *Effects, fn *ssa.Function) *GCNF { return BuildGCNFOpts(p, e, fn, BuildOpts{}) }
+func BuildGCNF(p *Prog, e *Effects, fn *ssa.Function) *GCNF {
+	return BuildGCNFOpts(p, e, fn, BuildOpts{})
+}
 
 func BuildGCNFOpts(p *Prog, e *Effects, fn *ssa.Function, opts BuildOpts) *GCNF {
 	b := &gcBuilder{p: p, e: e, fn: fn, cutIdx: map[string]int{}, out: &GCNF{Fn: fn}, opts: opts, siteID: map[ssa.Instruction]int{}}
@@ -381,7 +389,64 @@ func (b *gcBuilder) emit(st *pstate, from int, exit *Term) {
 	if !feasible {
 		return
 	}
-	b.out.GCs = append(b.out.GCs, &GC{From: from, Guards: gs, Effects: append([]*Term(nil), st.effects...), Exit: exit, Pos: st.pos})
+	b.out.GCs = append(b.out.GCs, &GC{From: from, Guards: gs, Effects: append([]*Term(nil), st.effects...), Exit: exit, Pos: st.pos, LiveIn: st.liveIn})
+}
+
+// liveIns: see GC.LiveIn.
+func (b *gcBuilder) liveIns(st *pstate, blk *ssa.BasicBlock, k int) map[string]*Term {
+	cut := b.cuts[k]
+	if len(cut.frames) != len(st.frames) {
+		return nil
+	}
+	tmp := &pstate{b: b, start: blk, frames: append([]*frame(nil), st.frames...), env: map[ssa.Value]*Term{}, onPath: map[string]bool{}}
+	for _, ce := range cut.ctx {
+		tmp.env[ce.phi] = ce.t
+	}
+	n := 0
+	for _, in := range blk.Instrs {
+		ph, ok := in.(*ssa.Phi)
+		if !ok {
+			break
+		}
+		tmp.env[ph] = leaf("φ", fmt.Sprintf("%d.%d", k, n))
+		n++
+	}
+	out := map[string]*Term{}
+	for _, d := range blk.Parent().Blocks {
+		if d == blk || !d.Dominates(blk) {
+			continue
+		}
+		for _, in := range d.Instrs {
+			v, ok := in.(ssa.Value)
+			if !ok {
+				continue
+			}
+			cur, ok := st.env[v]
+			if !ok || v.Referrers() == nil {
+				continue
+			}
+			if _, isPhi := v.(*ssa.Phi); isPhi {
+				continue
+			}
+			used := false
+			for _, r := range *v.Referrers() {
+				if rb := r.Block(); rb != nil && blk.Dominates(rb) {
+					used = true
+				}
+			}
+			if !used {
+				continue
+			}
+			key := tmp.term(v)
+			if key.String() != cur.String() {
+				out[key.String()] = cur
+			}
+		}
+	}
+	if len(out) == 0 {
+		return nil
+	}
+	return out
 }
 
 // inlinable decides whether a static library callee is expanded in place: closures and compiler-generated wrappers always,
@@ -543,7 +608,11 @@ func (b *gcBuilder) walk(st *pstate, blk *ssa.BasicBlock, pred *ssa.BasicBlock, 
 					assigns = append(assigns, st.term(ph.Edges[pi]))
 				}
 			}
+			if b.opts.LiveIn && !(len(st.frames) == len(b.cuts[from].frames) && b.cuts[from].blk == blk) {
+				st.liveIn = b.liveIns(st, blk, k)
+			}
 			b.emit(st, from, nodeL("goto", strconv.Itoa(k), assigns...))
+			st.liveIn = nil
 			return
 		}
 		if st.onPath[key] {
@@ -703,7 +772,9 @@ func copyCounts(m map[string]int) map[string]int {
 	return c
 }
 
-func typeKey(t types.Type) string { return types.TypeString(t, func(*types.Package) string { return "" }) }
+func typeKey(t types.Type) string {
+	return types.TypeString(t, func(*types.Package) string { return "" })
+}
 
 func fieldKey(fa *ssa.FieldAddr) string {
 	owner := "?"
@@ -1253,7 +1324,9 @@ func mkBin(op token.Token, a, b *Term) *Term {
 		}
 		// nil against nil / against a fresh allocation: decided (an inlined helper returning nil, a just-built node)
 		isNil := func(t *Term) bool { return t.Op == "#" && t.Leaf == "nil" }
-		nonNil := func(t *Term) bool { return t.Op == "new" || t.Op == "makeslice" || t.Op == "makemap" || t.Op == "makechan" }
+		nonNil := func(t *Term) bool {
+			return t.Op == "new" || t.Op == "makeslice" || t.Op == "makemap" || t.Op == "makechan"
+		}
 		switch {
 		case isNil(a) && isNil(b):
 			return boolConst(op == token.EQL)
